@@ -1,6 +1,6 @@
 //! C12 — help and usage always render, list every visible item and nothing hidden.
 //!
-//! Space: help-shape configurations (<= N args from 15 shapes x 13 per-arg modifiers x 11 command
+//! Space: help-shape configurations (<= N args from 15 shapes x 14 per-arg modifiers x 11 command
 //! modifiers; always one visible and one hidden subcommand) x terminal widths x 7 entry points
 //! (render_help, render_long_help, render_usage, the errors from `-h`, `--help`, `viscmd -h`).
 //! Oracle: no panic / abort; bounded padding; with the default template every argument and
@@ -18,8 +18,8 @@ const PROP: &str = "C12";
 const SHAPES: [&str; 15] = [
     "flag-short", "flag-long", "flag-both", "count-short", "count-long", "opt-short", "opt-long", "opt-both", "opt-optional", "opt-req-eq", "opt-multi", "pos-required", "pos-optional", "pos-multi", "pos-last",
 ];
-const MODS: [&str; 13] = [
-    "none", "hide", "hide-short-help", "hide-long-help", "next-line-help", "heading", "long-help", "possible-values", "possible-values-unicode", "default", "env", "visible-alias", "long-text",
+const MODS: [&str; 14] = [
+    "none", "hide", "hide-short-help", "hide-long-help", "next-line-help", "heading", "long-help", "possible-values", "possible-values-unicode", "default", "env", "visible-alias", "long-text", "possible-values-all-hidden",
 ];
 const CMODS: [&str; 11] = [
     "none", "next-line-help", "flatten-help", "tmpl-options", "tmpl-positionals", "tmpl-subcommands", "tmpl-all-args", "sub-heading", "before-after", "flatten-equal-display-order", "hide-possible-values",
@@ -102,6 +102,12 @@ fn mk_arg(n: usize, shape: &str, m: &str) -> ArgSpec {
                 PvSpec { name: "café".into(), help: Some("PVHELPcafe".into()), ..Default::default() },
                 PvSpec { name: "tea".into(), help: Some("PVHELPtea".into()), ..Default::default() },
                 PvSpec { name: "日本".into(), ..Default::default() },
+            ]);
+        }
+        "possible-values-all-hidden" if takes => {
+            a.parser = Vp::Pv(vec![
+                PvSpec { name: "HIDDENPV".into(), hide: true, help: Some("PVHELPhidden".into()), ..Default::default() },
+                PvSpec { name: "HIDDENPV2".into(), hide: true, ..Default::default() },
             ]);
         }
         "default" if takes => a.default = vec!["dflt".into()],
@@ -424,7 +430,7 @@ fn main() {
         Tier::Quick => vec![0, 5, 30, 80],
         Tier::Thorough => vec![0, 1, 2, 3, 5, 8, 10, 15, 20, 30, 40, 60, 79, 80, 81, 100, 120, 200],
     };
-    rep.rule("block = one help-shape configuration (<= 2 arguments from 15 shapes x 13 modifiers, x 11 command modifiers; one visible + one hidden + one more visible subcommand always present); case = (width, entry point) over 7 entry points (render_help, render_long_help, render_usage, -h, --help, viscmd -h, help viscmd); each render is checked for panics, padding, listing of visible items in their section and absence of hidden markers. non-trivial = renders on which the listing/hidden clauses were evaluated (default template, not usage-only)");
+    rep.rule("block = one help-shape configuration (<= 2 arguments from 15 shapes x 14 modifiers, x 11 command modifiers; one visible + one hidden + one more visible subcommand always present); case = (width, entry point) over 7 entry points (render_help, render_long_help, render_usage, -h, --help, viscmd -h, help viscmd); each render is checked for panics, padding, listing of visible items in their section and absence of hidden markers. non-trivial = renders on which the listing/hidden clauses were evaluated (default template, not usage-only)");
     rep.set("bounds", json!({"configurations": cs.len(), "shapes": SHAPES, "arg_modifiers": MODS, "command_modifiers": CMODS, "widths_one_arg": widths, "widths_two_args": widths2, "entry_points": ["render_help", "render_long_help", "render_usage", "-h", "--help", "viscmd -h", "help viscmd"]}));
     rep.assume("listing clauses apply to the default template only; custom templates are checked for panics and padding; required hidden arguments may appear in usage and are not checked");
 
